@@ -76,6 +76,8 @@ def gen_cases(tier):
             yield ('fmt', v, kind, tier)
         yield ('text', v)
     yield ('alias',)
+    for i in range(0, len(Co.NAMED), 10):
+        yield ('names', i)
 
 
 def module_at(m, size, s, b, x, y):
@@ -274,6 +276,13 @@ def run_case(case, acc):
     kind = case[0]
     if kind == 'alias':
         return alias_case(acc)
+    if kind == 'names':
+        names = sorted(Co.NAMED)[case[1]:case[1] + 10]
+        for nm in names:
+            for fmt in ('png', 'ppm', 'xpm', 'pam'):
+                one('M1', fmt, {'dark': nm, 'light': '#010203' if fmt != 'xpm' else '#fefefe'}, nm, '#010203' if fmt != 'xpm' else '#fefefe', 1, 1, acc)
+                one('M1', fmt, {'dark': '#fdfcfb', 'light': nm.upper()}, '#fdfcfb', nm, 1, 0, acc)
+        return
     if kind == 'fmt':
         v, fmt = case[1], case[2]
         size = T.size_of(v)
